@@ -14,7 +14,6 @@ every other lookup waiting for it: theorem C26_unshielded_refuted).  `shield = t
 is what the property theorems and this check target.
 """
 import glob
-import itertools
 import json
 import os
 
@@ -57,15 +56,6 @@ ERRN = ['ErrA', 'ErrB']
 
 
 # ------------------------------------------------------------------------------------------------ schedules
-
-def _alphabet(keys, ncallers, dts):
-    al = []
-    for k in keys:
-        al += [['L', k], ['D', k], ['F', k, k % 2]]
-    al += [['C', c] for c in range(ncallers)]
-    al += [['A', d] for d in dts]
-    return al
-
 
 def _enumerate(keys, maxlen, dts):
     """All schedules up to maxlen, pruned by bookkeeping that does not need a model: D/F k only after a lookup of k that no
@@ -223,7 +213,7 @@ def correspond(ctx):
             distinct.add(key)
             last = o[-1] if o else {}
             # non-trivial: at least two lookups shared one load, or an entry was evicted/expired, or a caller was cancelled while waiting
-            shared = len(last.get('callers', [])) > len(last.get('starts', [])) + sum(1 for a in c['acts'] if a[0] == 'L' and False)
+            shared = len(last.get('callers', [])) > len(last.get('starts', []))
             if shared or any(x == 'X' for x in last.get('callers', [])) or len(last.get('starts', [])) > c['slots']:
                 nontrivial += 1
         for a in c['acts']:
